@@ -136,7 +136,8 @@ def independent_cost(sc, y, row):
     yhat = sol.y[idx, :].T
     yy = np.asarray(y).reshape(yhat.shape)
     if sc["loss"] == "SquareLoss":
-        return float(((yy - yhat) ** 2).sum())
+        w = np.ones_like(yy) if not sc.get("weights") else np.ones_like(yy) * np.array(sc["weights"], dtype=float)
+        return float((((yy - yhat) * w) ** 2).sum())
     sig = float(sc.get("sigma", 1.0))
     return float((0.5 * math.log(2 * math.pi * sig ** 2) + (yy - yhat) ** 2 / (2 * sig ** 2)).sum())
 
@@ -161,6 +162,8 @@ def api_cost(sc, y, row):
     theta = [vals[n] for n in tp]
     kw = dict(theta=theta, ode=ode, x0=x0, t0=np.float64(t[0]), t=t[1:], y=y, state_name=list(sc["obs"]),
               target_param=tp or None)
+    if sc["loss"] == "SquareLoss" and sc.get("weights"):
+        kw["state_weight"] = list(sc["weights"])
     obj = SquareLoss(**kw) if sc["loss"] == "SquareLoss" else NormalLoss(sigma=float(sc.get("sigma", 1.0)), **kw)
     return float(obj.cost())
 
@@ -248,6 +251,8 @@ def run_scenario(sc):
     pars = [pgabc.Parameter(p["name"], p["dist"], *p["args"], logscale=bool(p["log"])) for p in sc["pars"]]
     np.random.seed(sc["seed"])
     kw = dict(sigma=float(sc.get("sigma", 1.0))) if sc["loss"] == "NormalLoss" else {}
+    if sc["loss"] == "SquareLoss" and sc.get("weights"):
+        kw["state_weight"] = list(sc["weights"])          # one weight per observed state
     # the initial state as the caller's own float array (kept, and compared after the run: inferring an initial condition tries
     # other values but must not write them into the caller's data)
     x0_buf = np.array(M["x0"], dtype=float)
@@ -465,6 +470,8 @@ def gen_scenario(rng, thorough, kind=None):
     sc = dict(model=model, tmax=float(rng.choice([30.0, 40.0, 60.0])), nobs=int(rng.integers(6, 13)), obs=obs,
               loss="SquareLoss" if (not thorough or rng.random() < 0.7) else "NormalLoss",
               pars=pars, constraint=constraint, seed=int(rng.integers(1, 2 ** 31 - 1)), calls=[])
+    if sc["loss"] == "SquareLoss" and len(obs) == 2 and rng.random() < 0.35:
+        sc["weights"] = [float(rng.choice([0.5, 2.0, 3.0])), float(rng.choice([0.25, 1.5, 2.0]))]
     if sc["loss"] == "NormalLoss":
         sc["sigma"] = float(rng.choice([0.05, 0.1, 0.2]))       # the data are proportions: a standard deviation of their order
     # pilot: prior-predictive costs -> feasible tolerances
@@ -670,6 +677,10 @@ CORPUS = [
     dict(model="SIR", tmax=40.0, nobs=8, obs=["I", "R"], loss="SquareLoss", constraint=[1.0, "S"], seed=31415, kind="corpus",
          pars=[dict(name="gamma", dist="unif", args=[-1.0, -0.2], log=True), dict(name="I", dist="unif", args=[0.0, 0.05], log=False),
                dict(name="beta", dist="unif", args=[0.2, 1.2], log=False)],
+         calls=[dict(kind="get", N=12, tol="inf", G=2, q=0.5)]),
+    # per-state weights on the squared residuals
+    dict(model="SIR", tmax=40.0, nobs=8, obs=["I", "R"], loss="SquareLoss", weights=[0.5, 2.0], constraint=None, seed=577, kind="corpus",
+         pars=[dict(name="beta", dist="unif", args=[0.3, 0.8], log=False), dict(name="gamma", dist="unif", args=[0.2, 0.5], log=False)],
          calls=[dict(kind="get", N=12, tol="inf", G=2, q=0.5)]),
     # a normal likelihood whose standard deviation is not 1 (variance and standard deviation differ)
     dict(model="SIR", tmax=40.0, nobs=8, obs=["I", "R"], loss="NormalLoss", sigma=0.1, constraint=None, seed=1618, kind="corpus",
